@@ -517,6 +517,14 @@ impl TypeId {
     }
 }
 
+impl TypeBinder {
+    /// The assignments still visible under this binder: a nested binder that reuses the witness
+    /// (two copies of one `forall` produced by unfolding a type function) shadows it.
+    fn shadow(&self, assignments: &[(AbstId, TypeId)]) -> Vec<(AbstId, TypeId)> {
+        assignments.iter().filter(|(witness, _)| *witness != self.witness).copied().collect()
+    }
+}
+
 impl TypeId {
     pub fn subst_abst_k(
         &self, tycker: &mut Tycker<'_>, assign: (AbstId, TypeId),
@@ -560,12 +568,7 @@ impl TypeId {
                 }
                 | Type::Abs(abs) => {
                     let TypeAbstraction { binder, body } = abs;
-                    let body_assignments = assignments
-                        .iter()
-                        .filter(|(witness, _)| *witness != binder.witness)
-                        .copied()
-                        .collect::<Vec<_>>();
-                    let body_ = body.subst_absts(tycker, &body_assignments)?;
+                    let body_ = body.subst_absts(tycker, &binder.shadow(assignments))?;
                     if body == body_ {
                         *self
                     } else {
@@ -641,12 +644,12 @@ impl TypeId {
                     }
                 }
                 | Type::VForall(forall) => {
-                    let ValueForall(tpat, ty) = forall;
-                    let ty_ = ty.subst_absts(tycker, assignments)?;
+                    let ValueForall(binder, ty) = forall;
+                    let ty_ = ty.subst_absts(tycker, &binder.shadow(assignments))?;
                     if ty == ty_ {
                         *self
                     } else {
-                        Alloc::alloc(tycker, ValueForall(tpat, ty_), kd, &env)
+                        Alloc::alloc(tycker, ValueForall(binder, ty_), kd, &env)
                     }
                 }
                 | Type::VPackPi(pack_pi) => {
@@ -670,12 +673,12 @@ impl TypeId {
                     }
                 }
                 | Type::Forall(forall) => {
-                    let Forall(tpat, ty) = forall;
-                    let ty_ = ty.subst_absts(tycker, assignments)?;
+                    let Forall(binder, ty) = forall;
+                    let ty_ = ty.subst_absts(tycker, &binder.shadow(assignments))?;
                     if ty == ty_ {
                         *self
                     } else {
-                        Alloc::alloc(tycker, Forall(tpat, ty_), kd, &env)
+                        Alloc::alloc(tycker, Forall(binder, ty_), kd, &env)
                     }
                 }
                 | Type::PackPi(pack_pi) => {
@@ -717,7 +720,7 @@ impl TypeId {
                             (ExistsMode::Manifest(definition_), definition != definition_)
                         }
                     };
-                    let body_ = body.subst_absts(tycker, assignments)?;
+                    let body_ = body.subst_absts(tycker, &binder.shadow(assignments))?;
                     if !definition_changed && body == body_ {
                         *self
                     } else {
